@@ -311,6 +311,10 @@ def compile_insertion(prog, T):
             if base == 'discriminant' and len(args) == 1 and args[0][0] == 'app' and args[0][1].split('::')[-1].split('#')[0] == 'cmp':
                 x = comp(args[0])
                 return lambda a: {-1: 255, 0: 0, 1: 1}[x(a)[1]]
+            if base == 'discriminant' and len(args) == 1 and args[0][0] == 'app' and args[0][1].split('::')[-1].split('#')[0] == 'max_argument_amount':
+                # `match op.max_argument_amount() { Some(n) if .. }`: the Option's discriminant is a function of the table
+                x = comp(args[0])
+                return lambda a: 1 if x(a)[1] == 'Some' else 0
             if base in ('precedence', 'is_unary', 'is_left_to_right', 'is_leaf', 'is_sequence', 'max_argument_amount'):
                 w = who(args[0])
                 if w is None:
@@ -335,6 +339,15 @@ def compile_insertion(prog, T):
                     return lambda a: subs[0](a) == subs[1](a)
                 return lambda a: subs[0](a) != subs[1](a)
             raise Unknown(fmt(term))
+        if k == 'proj' and term[2] == ('as Some', '0') and term[1][0] == 'app' and term[1][1].split('::')[-1].split('#')[0] == 'max_argument_amount':
+            x = comp(term[1])
+
+            def payload(a):
+                v = x(a)
+                if v[1] != 'Some':
+                    raise Unknown('payload of None: ' + fmt(term))
+                return v[2][0]
+            return payload
         raise Unknown(fmt(term))
 
     compiled = []
